@@ -501,6 +501,8 @@ def infos_relations(inf, mu, rbody, truth, a, e, hyper):
             v = getattr(inf, nm)
         except ValueError:
             return "raises"
+        except Exception:
+            return "error"      # any other exception of the library is an outcome of this case, not of the harness
         return v.total_seconds() if hasattr(v, "total_seconds") else v
     rs, vn = float(np.linalg.norm(truth[:3])), float(np.linalg.norm(truth[3:]))
     h = float(np.linalg.norm(np.cross(truth[:3], truth[3:])))
@@ -513,14 +515,15 @@ def infos_relations(inf, mu, rbody, truth, a, e, hyper):
               ("vp", g("vp"), h / (a * (1 - e)), vn), ("n", g("n"), nmean, nmean),
               ("cos_fpa", cf, h / (rs * vn), 1.0), ("sin_fpa", sf, rv / (rs * vn), 1.0),
               ("fpa", g("fpa"), math.atan2(rv, h), 1.0),
-              ("cos2+sin2", "raises" if isinstance(cf, str) or isinstance(sf, str) else cf ** 2 + sf ** 2, 1.0, 1.0),
+              ("cos2+sin2", (cf if isinstance(cf, str) else sf) if isinstance(cf, str) or isinstance(sf, str) else cf ** 2 + sf ** 2, 1.0, 1.0),
               ("zp", g("zp"), a * (1 - e) - rbody, abs(a))]
     if hyper:
         checks += [("vinf", g("vinf"), math.sqrt(2 * energy), vn), ("dinf", g("dinf"), h / math.sqrt(2 * energy), abs(a) * e),
                    ("type", float(inf.type == "hyperbolic"), 1.0, 1.0)]
         for nm in ("period", "apocenter", "va"):
-            if g(nm) != "raises":
-                checks.append((nm, "no-raise", None, None))
+            v = g(nm)
+            if v != "raises":
+                checks.append((nm, "error" if v == "error" else "no-raise", None, None))
     else:
         per = TWO_PI * math.sqrt(a ** 3 / mu)
         checks += [("period", g("period"), per, per),
@@ -733,6 +736,8 @@ def orbit_checks(out, fr, k, hyper, a, e, i, Om, om, M, EH):
             out.fail("infos-" + nm + "-hyperbolic", f"infos.{nm} of a hyperbolic orbit does not raise", inp)
         elif got == "raises":
             out.fail(f"infos-{nm}-{conic}-raises", f"infos.{nm} raises ValueError where it is defined", inp)
+        elif got == "error":
+            out.fail(f"infos-{nm}-{conic}-error", f"infos.{nm} raises an exception other than ValueError", inp)
         elif not infos_ok(nm, got, exp, sc):
             out.fail(f"infos-{nm}-{conic}", f"infos.{nm} violates its defining relation", dict(inp, cartesian=[float(x) for x in truth]),
                      observed=float(got), expected=float(exp))
@@ -1497,7 +1502,7 @@ def history_checks(out, sv, six, rtag, tag, vals, ref, q, fam0, inp, op):
             if nm in by and by[nm] is not None and not isinstance(got, str):
                 got = by[nm]     # the value read as the operation itself
             if isinstance(got, str):
-                out.fail(f"{fam0}-{nm}-{got}", f"infos.{nm}: {'no ValueError although the orbit the object holds now is hyperbolic' if got == 'no-raise' else 'ValueError although it is defined for the orbit the object holds now'}", inp)
+                out.fail(f"{fam0}-{nm}-{got}", f"infos.{nm}: {'no ValueError although the orbit the object holds now is hyperbolic' if got == 'no-raise' else 'an exception other than ValueError' if got == 'error' else 'ValueError although it is defined for the orbit the object holds now'}", inp)
                 return True
             if not infos_ok(nm, got, exp, sc):
                 out.fail(f"{fam0}-{nm}", f"infos.{nm} does not obey its defining relation for the state the object holds now "
